@@ -221,6 +221,10 @@ extern "C" int harness_main() {
 #endif
   if (r.rc == 0 && !r.up_to_date) { VERIF_ASSERT(r.started.size() == r.finished_ok.size(), "C06: a successful build has finished everything it started"); verif_reach("built"); }
   if (r.max_running > 1) verif_reach("parallel");
+  // response files: gone once the command has succeeded, kept for inspection when it failed
+  for (size_t i = 0; i < g_ref.size(); i++) { if (g_ref[i].rspfile.empty()) continue;
+    if (has_id(r.finished_ok, g_ref[i].ordinal)) VERIF_ASSERT(!g_tree->exists(g_ref[i].rspfile), "C16: the response file is removed after the command succeeds");
+    if (has_id(r.failed, g_ref[i].ordinal)) { VFile* f = g_tree->find(g_ref[i].rspfile); VERIF_ASSERT(f && f->exists && f->is_text && f->text == g_ref[i].rspfile_content, "C16: the response file of a failed command is kept, with its content"); verif_reach("rspfile-kept"); } }
   return 0;
 }
 #elif defined(MODE_CRASH)
